@@ -62,3 +62,34 @@ def run_cases(cases, profile='dev', timeout_each=5.0, log=print):
         results[bad] = ('timeout', None) if crashed == 'timeout' else ('crash', 'exit %s' % crashed)
         todo = todo[n + 1:]
     return results
+
+
+def run_fsize(kind, model_limit, profile='dev', model_size=None):
+    """native fault injection for C13: the real path-based save under RLIMIT_FSIZE (SIGXFSZ ignored, so writes fail with EFBIG)"""
+    import tempfile, shutil, resource, signal
+    exe = build(profile)
+    big = bool(model_size is not None and model_size >= 8192)
+    r = subprocess.run([exe], input=encode(['package_size', kind, big]) + '\n', stdout=subprocess.PIPE, text=True)
+    size = int(parse_line(r.stdout.split('\n')[0])[1][0])
+    # keep the relation between the fault point and the package size of the model
+    if model_size:
+        limit = 0 if model_limit <= 0 else (size + 4096 if model_limit >= model_size else max(1, min(size - 1, int(size * model_limit / model_size))))
+    else: limit = model_limit
+    d = tempfile.mkdtemp(prefix='umya-c13-')
+    try:
+        ext = 'csv' if kind == 'csv' else 'xlsx'
+        dest = os.path.join(d, 'out.' + ext)
+        open(dest, 'wb').write(b'OLD')
+        def pre():
+            signal.signal(signal.SIGXFSZ, signal.SIG_IGN)
+            resource.setrlimit(resource.RLIMIT_FSIZE, (limit, limit))
+        p = subprocess.run([exe], input=encode(['fsize_save', kind, d, big]) + '\n', stdout=subprocess.PIPE, stderr=subprocess.PIPE, text=True, preexec_fn=pre, timeout=60)
+        line = (p.stdout.split('\n') + [''])[0]
+        res = parse_line(line) if line else ('crash', 'exit %s' % p.returncode)
+        data = open(dest, 'rb').read() if os.path.exists(dest) else None
+        out = {'result': res[1][0] if res[0] == 'ok' else res[0] + ':' + str(res[1]), 'package_size': size, 'rlimit_fsize': limit,
+               'dest_len': None if data is None else len(data), 'dest_is_old': data == b'OLD', 'leftover': sorted(x for x in os.listdir(d) if x != 'out.' + ext)}
+        out['dest_complete'] = data is not None and data != b'OLD' and abs(len(data) - size) <= (0 if kind == 'csv' else 64)
+        return out
+    finally:
+        shutil.rmtree(d, ignore_errors=True)
